@@ -117,6 +117,36 @@ pub fn run_vfn(line: &str) -> String {
                 let bs: String = b.iter().map(|x| if *x { '1' } else { '0' }).collect();
                 format!("{} {} {} {} {}", nums(&i0), nums(&i1), tm as u8, show_key(&ptr), if bs.is_empty() { "-".to_string() } else { bs })
             }
+            "score" => {
+                let v = vv::VVersion::new(opts.clone(), &levels);
+                let (level, need) = v.size_compaction();
+                format!("{} {}", level, need as u8)
+            }
+            "samples" => {
+                let v = vv::VVersion::new(opts.clone(), &levels);
+                let keys: Vec<Key> = split_nonempty(a1, ',').iter().map(|k| parse_key(k)).collect();
+                let res = v.read_samples(&keys);
+                // run-length encoded: <answer><state> xN
+                let mut out: Vec<String> = vec![];
+                let mut last = String::new();
+                let mut count = 0usize;
+                for (a, st) in res {
+                    let cur = format!("{}{}", a as u8, match st { Some((n, l)) => format!("@{}/{}", n, l), None => "@-".to_string() });
+                    if cur == last {
+                        count += 1;
+                    } else {
+                        if count > 0 {
+                            out.push(format!("{}x{}", last, count));
+                        }
+                        last = cur;
+                        count = 1;
+                    }
+                }
+                if count > 0 {
+                    out.push(format!("{}x{}", last, count));
+                }
+                if out.is_empty() { "-".to_string() } else { out.join(",") }
+            }
             "apply" => {
                 let v = vv::VVersion::new(opts.clone(), &levels);
                 levels_str(&v.apply_edit(&deleted, &added))
